@@ -254,7 +254,7 @@ def gen_tree(rng, depth, dirty, maxports=5, leaf_maxhash=1):
     return t
 
 
-# ---- names_ok: the decidable hypothesis of C09_dispatchable / C18_lookup -----------------
+# ---- names_ok: the decidable hypothesis of C09_dispatchable / C18_lookup_names_ok_partial -----------------
 # (a line-by-line mirror of coq/Ports/NamesOk.v; the driver prints the value the
 #  extracted function gives, the plug-ins compare)
 def _litchar(c):
@@ -389,3 +389,172 @@ def _port_ok(p):
 
 def names_ok(root):
     return _table_keys_free(root) and all(_port_ok(p) for p in root)
+
+
+# ---- C18: the text's proviso, the side condition of C18_lookup_partial, and the Spec's reading of
+# ---- an address (structural descent; independent of apropos and of the Coq model) -----------------
+def clash_kind(a, b):
+    """NamesModel.clashb split by its reason (LookupSpec.prefix_clashb / digit_facingb):
+    'prefix' = one name ends while the tokens agree ("a sibling's name is a prefix of another's"),
+    'digit'  = a '#N' meets a literal digit, None = the names part at a literal character"""
+    i = 0
+    while True:
+        if i >= len(a) or i >= len(b):
+            return 'prefix'
+        x, y = a[i], b[i]
+        if x == '#' and y == '#':
+            pass
+        elif x == '#':
+            return 'digit' if 48 <= y <= 57 else None
+        elif y == '#':
+            return 'digit' if 48 <= x <= 57 else None
+        elif x != y:
+            return None
+        i += 1
+
+def _name_shape(p):
+    """one name of the documented shape (NamesModel.leaf_okb / sub_okb; nothing about siblings)"""
+    r = _raw_segs(p)
+    if r is None:
+        return False
+    return _leaf_ok(*r) if p['sub'] is None else _sub_ok(*r)
+
+def _tables(root):
+    out = [root]
+    for p in root:
+        if p['sub'] is not None:
+            out += _tables(p['sub'])
+    return out
+
+def _pairs(t, kind):
+    ks = []
+    for p in t:
+        r = _raw_segs(p)
+        ks.append(None if r is None else _toks(r[0]))
+    for i in range(len(ks)):
+        for j in range(i + 1, len(ks)):
+            if ks[i] is None or ks[j] is None:
+                continue
+            if clash_kind(ks[i], ks[j]) == kind:
+                return True
+    return False
+
+def _concrete_free(t):
+    ex = []
+    for p in t:
+        r = _raw_segs(p)
+        ex.append([] if r is None else expand(r[0]))
+    for i in range(len(ex)):
+        for j in range(i + 1, len(ex)):
+            for a in ex[i]:
+                for b in ex[j]:
+                    if b.startswith(a) or a.startswith(b):
+                        return False
+    return True
+
+def _enums_pos(p):
+    r = _raw_segs(p)
+    return r is not None and all(k == 'L' or v >= 1 for k, v in r[0])
+
+def roundtrip(root):
+    """every raw name has the form literal runs / '#<digits>' (the structured tree renders back to it)"""
+    return all(_raw_segs(p) is not None for t in _tables(root) for p in t)
+
+# tree-level mirrors of coq/Ports/LookupSpec.v (the driver prints the extracted values; both sides
+# evaluate them only on trees that pass roundtrip)
+def names_shape(root):
+    return all(_name_shape(p) for t in _tables(root) for p in t)
+def enums_pos(root):
+    return all(_enums_pos(p) for t in _tables(root) for p in t)
+def sibling_prefix_free(root):
+    """the proviso of the property text: no concrete name of a port is a prefix of a concrete name of a sibling"""
+    return all(_concrete_free(t) for t in _tables(root))
+def key_prefix_free(root):
+    return not any(_pairs(t, 'prefix') for t in _tables(root))
+def no_digit_facing(root):
+    """the side condition of C18_lookup_partial = the complement of the finding class lookup-leading-zero-alias"""
+    return not any(_pairs(t, 'digit') for t in _tables(root))
+
+def _text_name(p):
+    """a name as the property texts describe it (C04/C05/C18): literal text (7-bit, none of : { * #)
+    and '#N' enumerations with 1 <= N, the text behind a '#N' does not go on with a digit or another
+    '#' (C05's documented form), an optional argument part ':...'; a sub-tree name ends in '/' and
+    has no argument part; no name starts with '/'.  Wider than LookupSpec.names_shape (a#3b/ and a
+    leaf ending in '/' are accepted here)."""
+    r = _raw_segs(p)
+    if r is None:
+        return False
+    segs, args = r
+    if not segs or not _segs_ok(segs) or not _args_ok(args):
+        return False
+    if segs[0][0] == 'L' and segs[0][1][:1] == b"/":
+        return False
+    if p['sub'] is not None:
+        return args == b"" and segs[-1][0] == 'L' and segs[-1][1].endswith(b"/")
+    return True
+
+def table_text_ok(t):
+    """one table satisfies what the property text asks: names of the documented form, every
+    enumeration non-empty, no concrete name a prefix of a sibling's"""
+    return all(_text_name(p) and _enums_pos(p) for p in t) and _concrete_free(t)
+
+def text_walk(t, prefix=b"/", ids=(), ok=True, out=None):
+    """the Spec's enumeration of the walk: (id, address, ok, port) for every leaf under every
+    expansion; ok = every table on the way satisfies table_text_ok"""
+    if out is None:
+        out = []
+    ok = ok and table_text_ok(t)
+    for i, p in enumerate(t):
+        for a in expand(p['segs']):
+            if p['sub'] is None:
+                out.append((ids + (i,), prefix + a, ok, p))
+            else:
+                text_walk(p['sub'], prefix + (a if a.endswith(b"/") else a + b"/"), ids + (i,), ok, out)
+    return out
+
+def spells(segs, s):
+    """C05's reading of a name against the beginning of s: literal text verbatim, at every '#N' a
+    decimal index < N (leading zeros allowed); returns what may follow"""
+    rests = {s}
+    for k, v in segs:
+        nxt = set()
+        for r in rests:
+            if k == 'L':
+                if r.startswith(v):
+                    nxt.add(r[len(v):])
+            else:
+                j = 0
+                while j < len(r) and 48 <= r[j] <= 57:
+                    j += 1
+                    if int(r[:j]) < v:
+                        nxt.add(r[j:])
+        rests = nxt
+    return rests
+
+def addressed(t, rel):
+    """the ports a relative address names, by structural descent: at every level a port whose name
+    spells the next part of the address; the address ends with the name of the port.
+    -> [(ids, port, ok, alias)]  ok = every table on the way is table_text_ok;
+    alias = on the way two siblings of which a '#N' meets a literal digit both spelled a beginning"""
+    out = []
+    def go(t, rel, ids, ok, alias):
+        ok = ok and table_text_ok(t)
+        hits = []
+        for i, p in enumerate(t):
+            r = _raw_segs(p)
+            if r is None:
+                continue
+            for rest in spells(r[0], rel):
+                hits.append((i, p, rest, _toks(r[0])))
+        who = {}
+        for i, p, rest, k in hits:
+            who[i] = k
+        idx = sorted(who)
+        here = any(clash_kind(who[a], who[b]) == 'digit' for x, a in enumerate(idx) for b in idx[x + 1:])
+        for i, p, rest, k in hits:
+            if rest == b"":
+                out.append((ids + (i,), p, ok, alias or here))
+            elif p['sub'] is not None:
+                go(p['sub'], rest, ids + (i,), ok, alias or here)
+    go(t, rel, (), True, False)
+    return out
